@@ -1043,11 +1043,12 @@ package geom
 //@   mode ufloat
 //@   ensures [nil_identity] t == nil ==> result1 == nil && typeof(result0) == MultiPolygon && result0.(MultiPolygon) == mp
 //@   ensures [shape] t != nil && result1 == nil ==> typeof(result0) == MultiPolygon && fresh(result0.(MultiPolygon)) && len(result0.(MultiPolygon)) == len(mp)
-//@   ensures [last_member] t != nil && result1 == nil && len(mp) >= 1 ==> txPtss(t, mp[len(mp)-1], result0.(MultiPolygon)[len(mp)-1])
+//@   ensures [pointwise] t != nil && result1 == nil ==> (forall k int :: 0 <= k && k < len(mp) ==> txPtss(t, mp[k], result0.(MultiPolygon)[k]))
 //@   ensures [error_nil_result] result1 != nil ==> result0 == nil
 //@   modifies nothing
 //@   loop 1 `for i, p := range mp`
-//@     invariant [members] t != nil && 0 <= #1 && #1 <= len(mp) && fresh(mp2) && len(mp2) == len(mp) && (#1 >= 1 ==> txPtss(t, mp[#1-1], mp2[#1-1]))
+//@     invariant [basic] t != nil && 0 <= #1 && #1 <= len(mp) && fresh(mp2) && len(mp2) == len(mp)
+//@     invariant [members] forall k int :: 0 <= k && k < #1 ==> txPtss(t, mp[k], mp2[k])
 //@   assert [member_pointwise] `mp2[i] = g.(Polygon)` typeof(g) == Polygon && fresh(g.(Polygon)) && okPtss(t, p) && txPtss(t, p, g.(Polygon))
 
 //@ func (b *Bounds) Transform
